@@ -82,3 +82,69 @@ func init() {
 		})
 	}
 }
+
+// filepath.WalkDir over the file-system model: directories are implied by the file names;
+// entries are visited in lexical order, the root first.
+func init() {
+	dirEntry := func(name string, isDir bool) Value {
+		obj := &NativeObj{Name: "fs.DirEntry"}
+		obj.Methods = map[string]func(m *Machine, fr *frame, args []Value) Value{
+			"IsDir": func(m *Machine, fr *frame, args []Value) Value { return Bool(isDir) },
+			"Name":  func(m *Machine, fr *frame, args []Value) Value { return MkStr(name) },
+		}
+		return Iface{T: types.Typ[types.String], V: obj}
+	}
+	reg("path/filepath.WalkDir", func(m *Machine, fr *frame, a []Value) Value {
+		root := m.fsPath(a[0], "filepath.WalkDir")
+		fn := a[1]
+		// collect entries under root
+		type ent struct {
+			path  string
+			isDir bool
+		}
+		seen := map[string]bool{}
+		var ents []ent
+		for f := range m.fs {
+			if f != root && !strings.HasPrefix(f, root+"/") {
+				continue
+			}
+			if !seen[f] {
+				seen[f] = true
+				ents = append(ents, ent{f, false})
+			}
+			for d := f; ; {
+				i := strings.LastIndex(d, "/")
+				if i <= 0 {
+					break
+				}
+				d = d[:i]
+				if len(d) < len(root) {
+					break
+				}
+				if !seen[d] {
+					seen[d] = true
+					ents = append(ents, ent{d, true})
+				}
+			}
+		}
+		if !seen[root] {
+			// root does not exist: the callback is told so
+			err := m.fsErr(fr, "lstat "+root+": no such file or directory")
+			return m.callValue(fr, fn, []Value{MkStr(root), Iface{}, err})
+		}
+		// lexical order by path components
+		for i := 1; i < len(ents); i++ {
+			for j := i; j > 0 && ents[j].path < ents[j-1].path; j-- {
+				ents[j], ents[j-1] = ents[j-1], ents[j]
+			}
+		}
+		for _, e := range ents {
+			base := e.path[strings.LastIndex(e.path, "/")+1:]
+			r := m.callValue(fr, fn, []Value{MkStr(e.path), dirEntry(base, e.isDir), Iface{}})
+			if it, ok := r.(Iface); ok && it.T != nil {
+				return r // an error (incl. SkipDir/SkipAll, which the callers here do not use) stops the walk
+			}
+		}
+		return Iface{}
+	})
+}
